@@ -191,7 +191,7 @@ def handle (j : Json) : Except String Json := do
       if r.tokens.length != n then pure (Json.mkObj [("outcome", "token-count"), ("n", Json.num (r.tokens.length : JsonNumber))])
       else match engineRun (decisionStep dsj) debug 0 n with
         | .ok _ t _ =>
-          let ds := alwaysDiagsRun r.tokens t ++ headerDiagsRun (searchNfa Generated.headerRegex) r.tokens t ++ spacingDiagsRun r.tokens t ++ manyInstrDiagsRun r.tokens t
+          let ds := alwaysDiagsRun r.tokens t ++ headerDiagsRun (searchNfa Generated.headerRegex) r.tokens t ++ spacingDiagsRun r.tokens t ++ manyInstrDiagsRun r.tokens t ++ commentLenDiagsRun r.tokens t
           pure (Json.mkObj [("outcome", "ok"), ("diags", Json.arr (ds.map diagJson).toArray)])
         | _ => pure (Json.mkObj [("outcome", "other")])
   | "sort" =>
